@@ -22,7 +22,7 @@ def _validate(ctx, tr, label, count):
     """validate a trace; on rejection report the event, drop the events of the same class, go on"""
     found = []
     cur = tr
-    for rnd in range(12):
+    for rnd in range(20):
         ok, matched, total, first = ctx.tlc_trace(SPEC, "TraceUtxoRpc", "TraceUtxoRpc.cfg", cur, timeout=2400, count=(rnd == 0 and count))
         if ok:
             break
@@ -55,6 +55,15 @@ def _validate(ctx, tr, label, count):
             key = "map_tx/%s/%s" % (first["ver"], field)
             what = "tx %s of %s: %s not preserved %s" % (l["hash"], first["src"], field, detail)
             same = lambda e, f=field: e["ev"] == "tx" and e["ver"] == first["ver"] and _tx_field(e) == f
+        elif ev == "out":
+            l, r = first["l"], first["r"]
+            field = _out_field(l, r)
+            key = "map_tx_output/%s/%s/noncanonical-datum" % (first["ver"], field) if first["enc"] != "canon" else \
+                "map_tx_output/%s/%s" % (first["ver"], field)
+            what = "generated output with an inline datum (%s wire encoding): %s not preserved: %s vs %s" % (
+                first["enc"], field, json.dumps(l.get(field))[:160], json.dumps(r.get(field))[:160])
+            same = lambda e, f=field: e["ev"] == "out" and e["ver"] == first["ver"] and \
+                (e["enc"] == "canon") == (first["enc"] == "canon") and _out_field(e["l"], e["r"]) == f
         else:
             key = "map_block/%s/header" % first["ver"]
             what = "block header / tx list not preserved: %s" % json.dumps(first)[:300]
@@ -66,25 +75,35 @@ def _validate(ctx, tr, label, count):
         cur = ctx.path("%s_rest%d.ndjson" % (label, rnd))
         vlib.write_ndjson(cur, rest)
     else:
-        raise vlib.ToolError("more than 12 distinct failure classes in %s" % label)
+        raise vlib.ToolError("more than 20 distinct failure classes in %s" % label)
     return found
+
+
+def _out_field(a, b):
+    """first differing field of an output projection; byte-exact fields first, because a ledger integer
+    and its rpc form may differ textually while being exact (labels only; TLC decided the rejection)"""
+    for k in ("addr", "dhash", "dwire", "assets", "coin", "datum"):
+        if a.get(k) != b.get(k):
+            return k
+    return "other"
 
 
 def _tx_field(e):
     """which projected field differs (labels the finding key only; TLC decided the rejection)"""
     l, r = e["l"], e["r"]
-    for k in l:
-        if k == "inputs":
-            if sorted(set(l[k])) != sorted(r.get(k, [])):
-                return k
-        elif k == "outputs":
-            if len(l[k]) != len(r.get(k, [])):
-                return "outputs"
-            for a, b in zip(l[k], r[k]):
-                sub = next((x for x in a if a[x] != b.get(x)), None)
-                if sub:
-                    return "outputs." + sub
-        elif l[k] != r.get(k):
+    for k in ("hash", "start", "ttl"):
+        if l[k] != r.get(k):
+            return k
+    if sorted(set(l["inputs"])) != sorted(r.get("inputs", [])):
+        return "inputs"
+    if len(l["outputs"]) != len(r.get("outputs", [])):
+        return "outputs"
+    subs = [_out_field(a, b) for a, b in zip(l["outputs"], r["outputs"])]
+    for want in ("addr", "dhash", "dwire", "assets", "coin", "datum"):
+        if want in subs:
+            return "outputs." + want
+    for k in ("wdatums", "fee"):
+        if l[k] != r.get(k):
             return k
     return "other"
 
@@ -159,6 +178,14 @@ def run(ctx):
         vlib.write_ndjson(p2, t2)
         ok2, m2, _, _ = ctx.tlc_trace(SPEC, "TraceUtxoRpc", "TraceUtxoRpc.cfg", p2, count=False)
         ctx.selftest("coin of the second output replaced (event %d)" % (idx2 + 1), (not ok2) and m2 == idx2)
+        idx4 = next(i for i, x in enumerate(evs1) if x["ev"] == "out" and x["enc"] == "wide")
+        t4 = [json.loads(json.dumps(x)) for x in evs1[max(0, idx4 - 3): idx4 + 3]]
+        k4 = idx4 - max(0, idx4 - 3)
+        t4[k4]["r"]["dhash"] = t4[k4]["r"]["dhash"][:-1] + ("0" if t4[k4]["r"]["dhash"][-1] != "0" else "1")
+        p4 = ctx.path("out_corrupt.ndjson")
+        vlib.write_ndjson(p4, t4)
+        ok4, m4, _, _ = ctx.tlc_trace(SPEC, "TraceUtxoRpc", "TraceUtxoRpc.cfg", p4, count=False)
+        ctx.selftest("datum hash of a mapped output (non-minimal wire encoding) altered", (not ok4) and m4 == k4)
         t3 = [json.loads(json.dumps(x)) for x in evs2[: idx2 + 3]]
         t3[idx2]["r"]["inputs"] = t3[idx2]["r"]["inputs"][1:]
         p3 = ctx.path("blocks_dropped.ndjson")
